@@ -13,6 +13,15 @@ saved cursor and margins inside) holds for both buffers in every reachable state
 the well-formedness of every row (`rowWF`: every cell is the first cell of a character of width
 `n ≥ 1` followed by exactly `n-1` continuation cells inside the row — "runs of positive width
 that sum to the screen width").
+
+What is proved, and where the boundary is:
+* `blank` policy (grid buffer): `Term.geo` alone is inductive for every token and EVERY width
+  function (`apply_geo_blank`), and so is the full `Scr.inv` (`apply_inv_blank`).
+* `keep` policy (span buffer): `Term.geo` alone is NOT inductive
+  (`geo_alone_not_inductive_under_keep`), the full invariant `Term.wf` is, provided the width
+  function never exceeds 2 (`apply_wf`); with a width-3 character the model loses a cell
+  (`keep_policy_width3_breaks_geo`).
+* The model has no `Line/StyledLine/ANSILine` accessors, so their agreement is not stated here.
 -/
 namespace TM
 
